@@ -106,8 +106,9 @@ class C18(Check):
         "to aiortc is the differential run (every probe, every report's fields and the bytes handed to the "
         "transport, final StreamStatistics fields). time.time() is an input: the arrival clock "
         "int(time.time()*clockrate) is an arbitrary integer per packet and SR/report instants are multiples of "
-        "2^-20 s (exact as floats). Several SSRCs in one receiver report, getStats() and the float rounding of "
-        "real wall-clock values are not modelled.")
+        "2^-20 s (exact as floats). Not modelled: several SSRCs in one receiver report (count > 1), the float "
+        "rounding of real wall-clock values, RtcpReceiverInfo.parse; getStats() is only observed (probes of the "
+        "receiver-driven cases read packetsLost / jitter / packetsReceived through it).")
     rule = (
         "random arrival histories of 1-120 events (one of 600-2500 events per 50 cases, one of >131000 in-order "
         "packets per 400 cases so that the extended highest sequence number passes 2^32 and cumulative loss passes "
